@@ -74,10 +74,10 @@ func VerifRun_C17d() {
 
 // C17-d2: the same end-to-end comparison over a program that also triggers the expression-level checks
 // (13 duplicate parameter, 14 same operands, 15 / 16 constant or / and, 19 duplicate condition, 21 float
-// equality): every choice of up to two check types switched off.
-const c17d2Prog = "function foo(a) return a end\nfoo(1, 2, 3)\nprint(nodef)\nlocal unused = 1\nlocal t = { k = 1, k = 2 }\nxx = 1\nxx = xx\nlocal function dp(p, p) end\nlocal v = xx\nlocal b1 = v ~= v\nlocal b2 = v == 1.5\nlocal b3 = v or true\nlocal b4 = v and false\nif v then xx = 2 elseif v then xx = 3 end\nlocal b5 = v < v\nprint(b1, b2, b3, b4, b5, dp)\n"
+// equality, 17 assignment to a never-read local): every choice of up to two check types switched off.
+const c17d2Prog = "function foo(a) return a end\nfoo(1, 2, 3)\nprint(nodef)\nlocal unused = 1\nlocal t = { k = 1, k = 2 }\nxx = 1\nxx = xx\nlocal function dp(p, p) end\nlocal v = xx\nlocal b1 = v ~= v\nlocal b2 = v == 1.5\nlocal b3 = v or true\nlocal b4 = v and false\nif v then xx = 2 elseif v then xx = 3 end\nlocal b5 = v < v\nprint(b1, b2, b3, b4, b5, dp)\nlocal nu = 1\nnu = 2\n"
 
-var c17d2Types = []int{2, 4, 5, 10, 13, 14, 15, 16, 19, 20, 21}
+var c17d2Types = []int{2, 4, 5, 10, 13, 14, 15, 16, 17, 19, 20, 21}
 
 func VerifRun_C17d2() {
 	root := verifVFSRoot()
